@@ -79,7 +79,6 @@ def _exhaustive_jobs(quick):
         ("reshare3", _with(RESHARE3, **one), None, True),
         ("late3", _with(LATE3, ag=True, tmax=TMIN + 1), None, True),
         ("remove", _with(REMOVE, ag=True, **one), None, True),
-        ("swap", _with(SWAP, ag=True, **one), None, True),
         # every key order x every listing order, completion anywhere in the window
         ("perm3", _with(FIRST3, ag=True, ae=True, ranks="AllRanks", perm=True), None, True),
         ("permadd", _with(ADD, ag=True, ae=True, ranks="AllRanks", perm=True, **one), None, True),
@@ -89,8 +88,10 @@ def _exhaustive_jobs(quick):
     ]
     if not quick:
         jobs += [
+            ("swap", _with(SWAP, ag=True, **one), None, True),
             ("first4", _with(FIRST4, **one), None, True),
-            ("add", _with(ADD, **one), None, True),
+            ("addgossip", _with(ADD, ae=True, **one), None, True),
+            ("addexec", _with(ADD, ag=True, **one), None, True),
             ("reshare4exec", _with(RESHARE4, ag=True, **one), None, True),
             ("late4", _with(LATE4, ag=True, **one), None, True),
             ("perm4", _with(FIRST4, ag=True, ae=True, ranks="AllRanks", perm=True), None, True),
@@ -155,7 +156,8 @@ def _steps(ops):
         elif nm == "Execute":
             steps.append({"k": "execute"})
         elif nm in ("GDeliver", "GDup"):
-            steps.append({"k": "g" if nm == "GDeliver" else "gdup", "typ": o["typ"], "origin": o["origin"], "to": o["to"]})
+            steps.append({"k": "g" if nm == "GDeliver" else "gdup", "typ": o["typ"], "origin": o["origin"], "to": o["to"],
+                          "from": o.get("from", 0)})
         elif nm in ("BDeliver", "BDup"):
             steps.append({"k": "b" if nm == "BDeliver" else "bdup", "typ": o["kind"], "origin": o["origin"], "to": o["to"]})
         elif nm in ("Start", "Timeout", "Complete", "Fail"):
@@ -173,30 +175,29 @@ def _script(name, cls, shape, rank, ops):
     steps, lists = _steps(ops)
     if not lists:
         return None
-    return {"name": name, "class": cls, "epoch": shape["epoch"], "nodes": list(range(1, shape["n"] + 1)),
+    return {"name": name, "class": cls, "keyTag": "shape-%d" % shape["n"], "epoch": shape["epoch"], "nodes": list(range(1, shape["n"] + 1)),
             "join": lists["join"], "remain": lists["remain"], "leave": lists["leave"],
             "leader": shape["leader"], "thr": shape["thr"], "prevThr": shape.get("prevThr", 0),
             "rank": [[i + 1, r] for i, r in enumerate(rank)], "late": shape.get("late", []),
             "period": 2, "policy": "script", "steps": steps}
 
 
-def _design_level(ctx):
+def _design_jobs(ctx):
+    """prepare the exhaustive runs; returns (jobs, thunks)"""
     jobs = _exhaustive_jobs(ctx.quick)
-    dirs, cfgs = [], []
-    for name, shape, invs, _ in jobs:
-        d = ctx.sub("MC_DKGExec_" + name)
-        path = os.path.join(d, "MC_DKGExec_gen_%s.cfg" % name)
-        with open(path, "w") as fh:
-            fh.write(_cfg(shape, invs=invs))
-        dirs.append(d)
-        cfgs.append(path)
     per = max(2, min(4, core.NCPU // 4))
     tmo = 240 if ctx.quick else 1100
+    thunks = []
+    for name, shape, invs, _ in jobs:
+        d = ctx.sub("MC_DKGExec_" + name)
+        cfg = "MC_DKGExec_gen_%s.cfg" % name
+        with open(os.path.join(d, cfg), "w") as fh:
+            fh.write(_cfg(shape, invs=invs))
+        thunks.append(lambda d=d, cfg=cfg: core.run_tlc(d, "MC_DKGExec", cfg, workers=per, timeout=tmo))
+    return jobs, thunks
 
-    def one(i):
-        return core.run_tlc(dirs[i], "MC_DKGExec", os.path.basename(cfgs[i]), workers=per, timeout=tmo)
-    with concurrent.futures.ThreadPoolExecutor(4) as ex:
-        res = list(ex.map(one, range(len(jobs))))
+
+def _design_results(ctx, jobs, res):
     cex = None
     for (name, shape, invs, expect_ok), r in zip(jobs, res):
         _record(ctx, "MC_DKGExec", "MC_DKGExec_gen_%s.cfg" % name, r, expect_ok=expect_ok)
@@ -214,21 +215,22 @@ def _design_level(ctx):
     return cex
 
 
-def _walks(ctx, shapes):
+def _walk_jobs(ctx, shapes):
+    thunks = []
+    for i, (shape, num, depth) in enumerate(shapes):
+        d = ctx.sub("Sim_DKGExec_" + shape["name"])
+        cfg = "Sim_DKGExec_gen_%s.cfg" % shape["name"]
+        with open(os.path.join(d, cfg), "w") as fh:
+            fh.write(_cfg(shape, sim=True, depth=depth))
+        thunks.append(lambda d=d, cfg=cfg, num=num, depth=depth, i=i: core.run_tlc(
+            d, "Sim_DKGExec", cfg, workers=1, timeout=300, simulate="num=%d" % (2 * num + 2), depth=depth + 5,
+            seed=ctx.seed * 101 + i))
+    return thunks
+
+
+def _walk_results(ctx, shapes, res):
     """TLC -simulate walks per shape -> scripts"""
     scripts = []
-
-    def one(item):
-        i, (shape, num, depth) = item
-        d = ctx.sub("Sim_DKGExec_" + shape["name"])
-        path = os.path.join(d, "Sim_DKGExec_gen_%s.cfg" % shape["name"])
-        with open(path, "w") as fh:
-            fh.write(_cfg(shape, sim=True, depth=depth))
-        r = core.run_tlc(d, "Sim_DKGExec", os.path.basename(path), workers=1, timeout=300,
-                         simulate="num=%d" % (2 * num + 2), depth=depth + 5, seed=ctx.seed * 101 + i)
-        return r
-    with concurrent.futures.ThreadPoolExecutor(4) as ex:
-        res = list(ex.map(one, enumerate(shapes)))
     for (shape, num, depth), r in zip(shapes, res):
         ctx.tlc_runs.append({"module": "Sim_DKGExec", "cfg": "Sim_DKGExec_gen_%s.cfg" % shape["name"], "distinct": r.distinct,
                              "generated": r.generated, "wall_s": round(r.wall, 1), "finished": r.finished,
@@ -259,12 +261,6 @@ def _walks(ctx, shapes):
 
 def run(ctx, monitors):
     q = ctx.quick
-    # the test binary is built from the current tree while TLC explores the design
-    build = concurrent.futures.ThreadPoolExecutor(1)
-    fut = build.submit(lambda: bin_for(ctx, "./internal/dkg"))
-    # 1. design level (exhaustive, in parallel)
-    cex = _design_level(ctx)
-    # 2. spec -> code: scripts
     if q:
         shapes = [(FIRST3, 2, 170), (RESHARE3, 2, 200), (ADD, 1, 260), (REMOVE, 1, 220), (LATE3, 1, 170),
                   (_with(RESHARE3, name="reshare3atomic", ag=True, ae=True), 2, 40)]
@@ -273,7 +269,19 @@ def run(ctx, monitors):
                   (REMOVE, 3, 220), (SWAP, 3, 220), (LATE3, 3, 170), (LATE4, 2, 300),
                   (_with(RESHARE3, name="reshare3atomic", ag=True, ae=True), 6, 40),
                   (_with(ADD, name="addatomic", ag=True, ae=True), 4, 40)]
-    scripts = _walks(ctx, shapes)
+    # 1. design level (exhaustive) and 2. behaviour generation run side by side, while the test
+    #    binary is built from the current tree
+    jobs, dthunks = _design_jobs(ctx)
+    wthunks = _walk_jobs(ctx, shapes)
+    with concurrent.futures.ThreadPoolExecutor(6) as ex:
+        fbuild = ex.submit(lambda: bin_for(ctx, "./internal/dkg"))
+        fd = [ex.submit(t) for t in dthunks]
+        fw = [ex.submit(t) for t in wthunks]
+        dres = [f.result() for f in fd]
+        wres = [f.result() for f in fw]
+        fbuild.result()
+    cex = _design_results(ctx, jobs, dres)
+    scripts = _walk_results(ctx, shapes, wres)
     if cex:
         scripts.insert(0, cex)
     ncex = sum(1 for s in scripts if "-cex" in s["class"])
@@ -282,8 +290,6 @@ def run(ctx, monitors):
     inp = os.path.join(ctx.work, "dkgexec-scripts.ndjson")
     write_scripts(inp, scripts)
     # 3. real code
-    fut.result()
-    build.shutdown()
     trace = run_harness(ctx, "./internal/dkg", "TestVerifDKGExec", "dkgexec.ndjson", env={"VERIF_IN": inp},
                         timeout=600 if q else 2400)
     # 4. code -> spec
